@@ -184,6 +184,16 @@ SkipOnlyFromStart == pc = "probe" => sid = Root /\ mat = None
 TypeOK == /\ pc \in {"call", "begin", "start", "probe0", "loop", "probe", "done"}
           /\ at >= cfg.s /\ (pc \notin {"call", "begin"} /\ cfg.s <= cfg.e => at <= cfg.e)
 
+(* reachability witnesses (non-vacuity): each of these must be REACHABLE;    *)
+(* `bin/check selftest` asserts that TLC finds its negation violated        *)
+Reach_AnchoredFilter ==     \* an inherited match is ignored by an anchored search
+    pc = "loop" /\ cfg.an /\ sid # DEAD /\ sid # Root /\ IsMatchState(P, K, sid)
+    /\ GetMatch(P, K, sid, 1, at)[2] > cfg.s
+Reach_PrefilterSkip ==      \* a prefilter candidate made the search jump ahead
+    pc = "loop" /\ PreActive /\ trans < at - cfg.s
+Reach_DeadAfterMatch ==     \* a leftmost search stopped in the dead state with a match in hand
+    pc = "done" /\ sid = DEAD /\ res # None /\ K # "std"
+
 (* structural lemmas about the automaton, on the same pattern lists *)
 Lemmas == pc = "call" =>
     /\ FailShortens(P, K) /\ FailIsSuffix(P, K) /\ NoDupInM(P, K)
